@@ -862,7 +862,7 @@ CASES["C15"] += [
 
 CASES["C13"] += [
     ("only results are followed for ops that are not copies", "mutant", "snaxc/transforms/insert_sync_barrier.py",
-     "for operand in [*op_in_module.operands, *op_in_module.results]:", "for operand in [*op_in_module.results]:", ["C13.every-value"]),
+     "alias for value in [*op_in_module.operands, *op_in_module.results] for alias in aliasing_values(value)", "alias for value in [*op_in_module.results] for alias in aliasing_values(value)", ["C13.every-value"]),
 ]
 
 CASES["C02"] += [
